@@ -26,8 +26,8 @@ TRUSTED = [
     "allocation failure for huge string.rep results (cases with 2^16 <= size < 2^63 are not run)",
 ]
 
-THEOREMS_STR = ["C19_sub_spec", "C19_byte_spec", "C19_rep_spec_partial", "C19_reverse_spec", "C19_len_spec",
-                "C19_find_plain_spec_partial", "C19_upper_lower_bytewise", "C19_str_no_panic"]
+THEOREMS_STR = ["C19_sub_spec", "C19_byte_spec", "C19_char_spec", "C19_rep_spec_partial", "C19_rep_spec_refuted", "C19_len_spec",
+                "C19_find_plain_spec_refuted", "C19_upper_lower_bytewise", "C19_upper_spec_refuted"]
 
 
 # ----------------------------------------------------------------------------- rendering
@@ -241,8 +241,7 @@ def known_string_finding(fn, args, go, im, s):
 
 
 # ----------------------------------------------------------------------------- tables
-THEOREMS_TAB = ["C19_insert_spec", "C19_remove_spec", "C19_move_spec", "C19_concat_spec", "C19_unpack_spec", "C19_pack_spec",
-                "C19_sort_is_permutation", "C19_tab_error_is_prefix"]
+THEOREMS_TAB = ["C19_insert_spec", "C19_remove_spec", "C19_move_spec", "C19_sort_is_permutation"]
 TAGS = {"4c": "L", "52": "R", "524e": "RN", "72": "r", "636e": "cn", "6331": "c1", "6332": "c2",
         "6731": "g1", "6732": "g2", "7331": "s1", "7332": "s2", "6c31": "l1", "6c32": "l2"}
 
@@ -258,6 +257,7 @@ def tab_go_line(cid, c):
             "t1=" + contents_str(c["t1"])]
     if c.get("t2") is not None:
         toks.append("t2=" + contents_str(c["t2"]))
+    toks.append("keys=" + ",".join(hexi(k) for k in tab_keys(c)))
     if c.get("err"):
         toks.append("err=%d" % c["err"])
     if c.get("cmp"):
@@ -332,20 +332,20 @@ def tab_len(c, g):
     return c["len"] if (c["mode"] == "proxy" and c.get("len") is not None) else g.get("L")
 
 
-def tab_keys(c, g):
+def tab_keys(c, g=None):
+    """The keys whose final value is compared (probed on the Go side, evaluated on the model side):
+    initial keys, integer arguments, reported length, destination range of a move, each with its neighbours."""
     ks = set(c["t1"].keys()) | set((c.get("t2") or {}).keys())
-    if g.get("status") == "done":
-        ks |= set(k for k in g["c1"] if isinstance(k, int)) | set(k for k in g["c2"] if isinstance(k, int))
-        for e in g["log"]:
-            f = e.split(":")
-            if len(f) > 1:
-                ks.add(int(f[1], 16))
     a = [x for x in tab_args_plain(c) if isinstance(x, int) and not isinstance(x, bool)]
-    L = tab_len(c, g)
-    if isinstance(L, int):
-        a.append(L)
+    L = c.get("len") if c.get("len") is not None else 0
+    a.append(L)
+    a.append(len(c["t1"]))
     if c["op"] == "move" and len(a) >= 3 and a[0] <= a[1] and a[1] - a[0] <= 1000:
         ks |= set(range(a[2], a[2] + a[1] - a[0] + 1))
+    if c["op"] == "pack":
+        ks |= set(range(0, len(c["args"]) + 3))
+    if c["op"] == "sort":
+        ks |= set(range(0, min(max(len(c["t1"]), L if L < 1000 else 0), 400) + 2))
     for x in a:
         ks |= {x}
     out = set()
@@ -451,8 +451,7 @@ def gen_table_cases(tier, rng, ck):
             for i in [None] + poslat(n):
                 for j in [None] + poslat(n):
                     if i is None and j is not None:
-                        cases.append(dict(base, op="unpack", args=["@1", None, j]))
-                        continue
+                        continue      # unpack(t, nil, j): nil for an optional integer is argument-convention, not modelled
                     cases.append(dict(base, op="unpack", args=["@1"] + ([i] if i is not None else []) + ([j] if j is not None else [])))
                     for sep in (b",", b""):
                         if (mode == "plain" or l in (None, n, MAXINT)) and (sep or thorough):
@@ -618,7 +617,7 @@ def sort_predicates(c, g):
 
 def tab_known(c, g, go, im, s):
     L = tab_len(c, g)
-    if L == MAXINT and c["op"] in ("insert", "remove") and go == im:
+    if L == MAXINT and c["op"] in ("insert", "remove") and (go == im or (go[0] == "spin" and im[0] == "spin")):
         return "C19-insert-remove-len-maxint-wraps"
     return None
 
@@ -629,18 +628,22 @@ def check_tables(ck, gvh, oracle, tier, corpus, tag="t"):
     allc = cases + sorts
     lines = [tab_go_line("%s%d" % (tag, i), c) for i, c in enumerate(allc)]
     ck.log("table cases: %d (+ %d sort)" % (len(cases), len(sorts)))
-    go = run_go(gvh, lines, batch=500)
-    # calls the model predicts to spin are re-run under a CPU limit
+    # calls the model predicts never to terminate (2-argument insert when #t = maxinteger) run under a CPU limit, one per runtime
+    def spins(c):
+        return c["op"] == "insert" and len(c["args"]) == 2 and c["mode"] == "proxy" and c.get("len") == MAXINT and not c.get("err")
+    normal = [l for l, c in zip(lines, allc) if not spins(c)]
+    limited = [l for l, c in zip(lines, allc) if spins(c)]
+    go = run_go(gvh, normal, batch=500)
+    if limited:
+        rc, out, _ = vlib.run_lines(gvh, ["1", "cpu=300000"], limited, timeout=600)
+        for l in out:
+            cid, _, ev = l.partition(" ")
+            go[cid] = ev
+        ck.count("tab:insert:run-under-cpu-limit", len(limited))
     parsed = {}
     for i, c in enumerate(allc):
         cid = "%s%d" % (tag, i)
         parsed[cid] = parse_tab_go(go.get(cid, ""))
-    redo = [l for l in lines if parsed[l.split(" ", 1)[0]]["status"] in ("crash",) and "len=i7fffffffffffffff" in l and " Tinsert " in l]
-    if redo:
-        rc, out, _ = vlib.run_lines(gvh, ["1", "cpu=300000"], redo, timeout=600)
-        for l in out:
-            cid, _, ev = l.partition(" ")
-            parsed[cid] = parse_tab_go(ev)
     olines = [tab_oracle_line("%s%d" % (tag, i), c, parsed["%s%d" % (tag, i)]) for i, c in enumerate(cases)]
     rc, mod, err = run_oracle(oracle, olines)
     if rc != 0 or len(mod) != len(olines):
@@ -667,7 +670,9 @@ def check_tables(ck, gvh, oracle, tier, corpus, tag="t"):
             fails.setdefault(op + "/crash", []).append((len(lines[i]), i, gc, imf, sf))
             continue
         # --- Go vs S
-        s_applicable = not (sf[0] == "big") and not (gc[0] == "err:injected")
+        Lc = tab_len(c, g)
+        neglen = isinstance(Lc, int) and Lc < 0 and op in ("insert", "remove")    # the manual says nothing about a negative #t
+        s_applicable = not (sf[0] == "big") and not (gc[0] == "err:injected") and not neglen
         s_ok = True
         if s_applicable:
             if sf[0].startswith("err:"):
@@ -682,7 +687,7 @@ def check_tables(ck, gvh, oracle, tier, corpus, tag="t"):
                     s_ok = True          # implementation limit on the number of results
                     ck.count("tab:unpack:result-limit")
         else:
-            ck.count("tab:S-not-applicable:" + ("big-range" if sf[0] == "big" else "injected-error"))
+            ck.count("tab:S-not-applicable:" + ("big-range" if sf[0] == "big" else "negative-length" if neglen else "injected-error"))
         # --- Go vs IM (log only where there is one)
         im_ok = (gc[0], gc[1], gc[2]) == (imf[0], imf[1], imf[2]) and (c["mode"] == "plain" or gc[3] == imf[3])
         if not s_ok:
@@ -721,7 +726,7 @@ def check_tables(ck, gvh, oracle, tier, corpus, tag="t"):
     for _, i, f in sfail[:3]:
         ck.violation("table.sort: %s on %s (%d failing cases)" % (f[0], lines[i].split(" ", 1)[1][:160], len(sfail)),
                      {"kind": "Go!=S", "engine": "strlib", "case": lines[i].split(" ", 1)[1], "impl": go.get("%s%d" % (tag, i), "")[:2000],
-                      "failed_predicates": f, "theorems": ["C19_sort_is_permutation", "C19_sort_sorted_if_consistent"]})
+                      "failed_predicates": f, "theorems": ["C19_sort_is_permutation"]})
     for i in (0, len(cases) // 2, len(cases) + len(sorts) // 2):
         cid = "%s%d" % (tag, i)
         if i < len(allc):
@@ -736,7 +741,8 @@ def oracle_line(cid, case, goev):
 
 # ----------------------------------------------------------------------------- run
 def build(ck):
-    gvh, err = ck.build_gvh(pkg="./cmd/gvh-strlib", name="gvh-strlib_verif")
+    # C19_OVERLAY: a `go build -overlay` file, used only for the mutation-sensitivity experiments
+    gvh, err = ck.build_gvh(pkg="./cmd/gvh-strlib", name="gvh-strlib_verif", overlay=os.environ.get("C19_OVERLAY"))
     if gvh is None:
         ck.violation("harness does not build against /repo", {"kind": "build", "stderr": err[-3000:]}, no_input=True)
         return None, None
@@ -806,7 +812,7 @@ def check_strings(ck, gvh, oracle, cases, tag="s"):
                 reported[fn + "/crash"] += 1
                 ck.violation("string.%s: Go panic / crash on %s" % (fn, lines[i]),
                              {"kind": "Go!=S", "engine": "strlib", "case": lines[i].split(" ", 1)[1], "impl": go.get(cid), "spec_S": s,
-                              "theorems": ["C19_str_no_panic"]})
+                              "theorems": THEOREMS_STR})
             continue
         if not same_S(g, s):
             k = known_string_finding(fn, a, g, im, s)
